@@ -887,3 +887,47 @@ func TestC17PointerLoops(t *testing.T) {
 }
 
 func init() { reg("C17.ptrloop", checkC17PtrLoop) }
+
+// ---- a failing call below `is defined` ------------------------------------------------------------------------
+
+type C17DefinedCase struct {
+	Which int `json:"which"`
+}
+
+var c17DefinedSrcs = []string{
+	"{{ nofn().y is defined ? 'Y' : 'N' }}",
+	"{% if x.nosuchfunction().y is defined %}a{% else %}b{% endif %}",
+	"{% import 'lib' as l %}{{ l.bad().x is defined ? 'Y' : 'N' }}",
+	"{{ ('a'|no_such_filter).y is defined ? 'Y' : 'N' }}",
+	"{{ x[nofn()] is defined ? 'Y' : 'N' }}",
+	"{% for i in [1] %}{{ nofn().y is not defined ? 'Y' : 'N' }}{% endfor %}",
+	"{{ nofn().y.z is defined ? 'Y' : 'N' }}",
+}
+
+func checkC17Defined(c C17DefinedCase) error {
+	src := c17DefinedSrcs[c.Which%len(c17DefinedSrcs)]
+	tm := map[string]string{"main": src, "lib": "{% macro bad() %}{{ 'x'|no_such_filter }}{% endmacro %}"}
+	r := render(newEngine(tm), "main", map[string]interface{}{"x": map[string]interface{}{"k": 1}})
+	if r.Panic != "" {
+		return fmt.Errorf("render panicked: %v; source %s", r, q(src))
+	}
+	if !r.Failed() || r.Out != "" {
+		return fmt.Errorf("the expression under `is defined` calls a function, filter or macro that does not exist (or fails), but Render returned %s with a nil error; source %s", q(r.Out), q(src))
+	}
+	return nil
+}
+
+func TestC17Defined(t *testing.T) {
+	r := NewRec(t, "C17", "exhaustive: 7 templates in which the expression tested with `is defined` / `is not defined` contains a call that cannot be resolved or fails (unknown function, unknown filter, failing macro of an imported library; as object, as subscript, two attributes deep, in a loop); oracle: Render returns an error and no output; all cases non-trivial")
+	defer r.Flush()
+	r.SetExhaustive()
+	for i := range c17DefinedSrcs {
+		c := C17DefinedCase{Which: i}
+		r.Case(fmt.Sprint(i), true, c17DefinedSrcs[i])
+		if err := checkC17Defined(c); err != nil {
+			r.FailEnum(t, "C17.defined", c, err)
+		}
+	}
+}
+
+func init() { reg("C17.defined", checkC17Defined) }
